@@ -23,7 +23,7 @@ VERIF = os.environ.get("VERIF_DIR", os.path.dirname(os.path.abspath(__file__)))
 GO = os.environ.get("VERIF_GO", "go")
 RACE = os.environ.get("VERIF_C13_RACE") == "1"  # C14 job: the CLI is built with -race; the oracle is "no race report"
 CLI = os.path.join(VERIF, ".build" if os.path.realpath(REPO) == "/repo" else ".build-alt-%d" % os.getppid(), "dt-cli-race" if RACE else "dt-cli")
-PROP = "C14" if RACE else "C13"
+PROP = os.environ.get("VERIF_C13_RACE_PROP", "C14") if RACE else "C13"
 PFX = "vf%d" % os.getpid()
 
 
